@@ -46,7 +46,8 @@ def prog_job(args):
                 allsigs = inputs + combT + syncT
                 items = [("assign", "sync", Cat(t2, t2).bit_select(o1, 1), 1)]
             else:
-                items = gen_prog.gen_items(rng, g_comb, g_sync, Fresh(tg_comb), Fresh(tg_sync), rng.randint(1, depth), hist)
+                items = gen_prog.gen_items(rng, g_comb, g_sync, Fresh(tg_comb), Fresh(tg_sync), rng.randint(1, depth), hist,
+                                            fsm_watch=True)
         except Exception as e:
             hist["generator_error:" + errkind(e)] = hist.get("generator_error:" + errkind(e), 0) + 1
             continue
@@ -62,6 +63,10 @@ def prog_job(args):
             fsm_list = list(gen_prog.fsm_items(items))
             ogs = [sig for it in fsm_list for sig, _ in it[4]]
             states = [fsms[it[1]].state for it in fsm_list]
+            # the signals `fsm.ongoing(S)` returns, one per encoded state (all encoded states are defined by now)
+            ogints = [fsms[it[1]].ongoing(sn) for it in fsm_list for sn in fsms[it[1]].encoding]
+            ogs = ogs + ogints
+            gen_prog.fsm_shapes(items, hist)
             frag = Fragment.get(m2, None)
             known = {id(s) for s in allsigs + ogs + states + [dummy]}
             extra = []
@@ -78,14 +83,25 @@ def prog_job(args):
                 sigidx["fsm:" + it[1]] = fsms[it[1]].state
             case.update({"sigs": [(s.name, len(s), s.shape().signed, s.init) for s in allsigs],
                          "comb_idx": [sigidx[id(s)] for s in combT2], "sync_idx": [sigidx[id(s)] for s in syncT2]})
-            # the FSM-specific sentences, checked directly: initial state = first defined unless specified
+            # the FSM-specific sentences, checked directly: initial state = first defined unless specified (by *name*:
+            # what the real FSM object decodes the register's initial value to)
             for it in fsm_list:
-                enc = gen_prog.fsm_encoding(it)
-                want = enc[it[2] if it[2] is not None else it[3][0][0]]
-                if fsms[it[1]].state.init != want:
-                    case["fsm_init"] = (it[1], fsms[it[1]].state.init, want)
+                f = fsms[it[1]]
+                want = it[2] if it[2] is not None else it[3][0][0]
+                got = f.decoding.get(f.state.init, "?")
+                if got != want:
+                    case["fsm_init"] = (it[1], got, want)
+            case["fsm_regs"] = [(it[1], sigidx[id(fsms[it[1]].state)], dict(fsms[it[1]].decoding)) for it in fsm_list]
             stm = {d: gen_prog.ser_stmts(frag.statements.get(d, []), {**sigidx, id(dummy): len(allsigs)}) for d in ("comb", "sync")}
             prog = {d: gen_prog.ser_prog(items, d, sigidx) for d in ("comb", "sync")}
+            # the program as written (FSMs by name), plus what this harness appended to the module after it
+            fprog = gen_prog.ser_fprog(items, sigidx, fsms)
+            fprog += "".join(f" (= comb (sig {sigidx[id(sig)]}) (sig {sigidx[id(f.ongoing(sn))]}))"
+                             for sig, f, sn in fsms.get("__watchers__", []))
+            fprog += f" (= sync (sig {len(allsigs)}) (~ (sig {len(allsigs)})))"
+            # registers a testbench may force to any code: those of FSMs with an `m.next` (the others are constants)
+            pokable = [(fsms[it[1]].state, dict(fsms[it[1]].decoding)) for it in fsm_list
+                       if any(gen_prog._has_next(e[2]) for e in gen_prog.fsm_entries(it) if e[0] == "state")]
             sim = Simulator(m2)
             sim.add_clock(Period(MHz=1))
             steps = []
@@ -101,6 +117,13 @@ def prog_job(args):
                     r = 1 if (not witness and rng.random() < 0.2) else 0
                     ctx.set(cd2.rst, r)
                     rsts.append(r)
+                    # now and then an FSM is put into an arbitrary code, unused ones included ("in none of its states")
+                    if pokable and rng.random() < 0.1:
+                        st, dec = rng.choice(pokable)
+                        v = rng.randrange(1 << len(st))
+                        ctx.set(st, v)
+                        k = "fsm_register_forced_to_a_state" if v in dec else "fsm_register_forced_to_unused_code"
+                        hist[k] = hist.get(k, 0) + 1
                     env = [ctx.get(s) for s in allsigs]
                     await ctx.tick()
                     env2 = [ctx.get(s) for s in allsigs]
@@ -130,6 +153,17 @@ def prog_job(args):
         case["req_sync1"] = mk_sync(1) if any(rsts) else None
         case["envs_c"] = envs_c
         case["prog"] = prog
+        # the same steps with the program as written (FSMs by name) and, per state, the *name* of the state each FSM is in
+        def at(e):
+            cf = " ".join(f"({ri} {dec[e[ri]]})" for _n, ri, dec in case["fsm_regs"] if e[ri] in dec)
+            return f"(at {ser_env(e)} (conf {cf}))"
+        case["freq_comb"] = (f"(fproc {ctx} {inits} {rl} comb (rst none) (seq {stm['comb']}) (fprog {fprog}) "
+                             + " ".join(at(e) for e in envs_c) + ")")
+        mk_fsync = lambda r: (f"(fproc {ctx} {inits} {rl} sync (rst {r}) (seq {stm['sync']}) (fprog {fprog}) "
+                              + " ".join(at(e) for e, rr in zip(envs_s, rsts) if rr == r) + ")")
+        case["freq_sync"] = mk_fsync(0)
+        case["freq_sync1"] = mk_fsync(1) if any(rsts) else None
+        case["fprog"] = fprog
         out.append(case)
     return {"cases": out, "hist": hist}
 
